@@ -462,3 +462,94 @@ NONTERMINALS = {
     "use_head": X_("USE/REFERENCE"), "var": "param:var", "where_clause": "where:labelled", "where_clause_list": "where:labelled",
     "where_rule": "where:labelled", "where_rule_OPT": "where:unlabelled", "while_control": "stmt:repeat-while",
 }
+
+
+# ------------------------------------------------------------------ correspondence with the Lean declaration-syntax model
+from tools.c07_exp import hx
+
+
+def enc_ty(t):
+    """type AST -> request words of the Lean driver (`ty` / `args`)"""
+    k = t[0]
+    if k == "named": return "N " + hx(t[1])
+    if k == "simple": return f"S {t[1]} {1 if t[2] is not None else 0} {1 if t[3] else 0}"
+    if k == "aggr": return f"A {t[1]} {1 if t[2] is not None else 0} {1 if t[3] else 0} {1 if t[4] else 0} " + enc_ty(t[5])
+    if k == "generic": return "G " + (hx(t[1]) if t[1] else "-")
+    if k == "aggregate": return "GA " + (hx(t[1]) if t[1] else "-") + " " + enc_ty(t[2])
+    raise DeclError(f"type {t} has no Lean form")
+
+
+def collapse(toks):
+    """raw tokens of a type / parameter list -> the driver's token text: expressions (precision, bounds) become `E`"""
+    out, i = [], 0
+    def match(j, op, cl):
+        d = 0
+        while True:
+            if toks[j] == S(op): d += 1
+            elif toks[j] == S(cl):
+                d -= 1
+                if d == 0: return j
+            j += 1
+    while i < len(toks):
+        t = toks[i]
+        if t[0] == "skw" and t[1] in SIMPLE and i + 1 < len(toks) and toks[i + 1] == S("("):
+            j = match(i + 1, "(", ")")
+            out += ["k:" + t[1], "s:(", "E", "s:)"]; i = j + 1; continue
+        if t == S("["):
+            j = match(i, "[", "]")
+            out += ["s:[", "E", "s::", "E", "s:]"]; i = j + 1; continue
+        if t[0] == "skw": out.append("k:" + t[1])
+        elif t[0] == "id": out.append("i:" + t[1].lower())
+        elif t[0] == "sym": out.append("s:" + t[1])
+        else: out.append("?" + str(t))
+        i += 1
+    return " ".join(out)
+
+
+def header_slices(toks):
+    """{(kind, name): tokens between the parentheses of a FUNCTION/PROCEDURE header} for non-empty parameter lists"""
+    out = {}
+    for i, t in enumerate(toks):
+        if t in (K("FUNCTION"), K("PROCEDURE")) and i + 2 < len(toks) and toks[i + 1][0] == "id" and toks[i + 2] == S("("):
+            d, j = 0, i + 2
+            while True:
+                if toks[j] == S("("): d += 1
+                elif toks[j] == S(")"):
+                    d -= 1
+                    if d == 0: break
+                j += 1
+            out[(t[1].lower(), toks[i + 1][1].lower())] = toks[i + 3:j]
+    return out
+
+
+def type_slices(toks):
+    """{name: tokens of the underlying type of `TYPE name = … ;`} (enumeration / select excluded)"""
+    out = {}
+    for i, t in enumerate(toks):
+        if t == K("TYPE") and toks[i + 2] == ("op", "eq"):
+            j = i + 3
+            while toks[j] != S(";"): j += 1
+            body = toks[i + 3:j]
+            if body and body[0] not in (K("ENUMERATION"), K("SELECT")):
+                out[toks[i + 1][1].lower()] = body
+    return out
+
+
+def source_params(slice_toks):
+    """source header slice -> [(name, VAR, type AST, object id)]: one type object per source group, named types share one"""
+    p = P(slice_toks + [S(")")])
+    out, named, g = [], {}, 1000
+    while True:
+        var = p.opt(K("VAR"))
+        names = [p.ident()]
+        while p.opt(S(",")): names.append(p.ident())
+        p.eat(S(":")); ty = p.type_()
+        g += 1
+        # one Type object per named type and one for the unlabelled GENERIC (`Type_Generic`); every other type
+        # written in a header is an object of its own (`TYPEcreate_from_body_anonymously`)
+        if ty[0] == "named": obj = named.setdefault(ty[1], len(named))
+        elif ty == ("generic", None): obj = named.setdefault("<GENERIC>", len(named))
+        else: obj = g
+        out += [(n, var, ty, obj) for n in names]
+        if not p.opt(S(";")): break
+    return out
